@@ -17,8 +17,8 @@ SRC = os.environ.get("WV_SRC_ROOT", "/repo/src")
 PROPS = ["C%02d" % i for i in range(1, 21)]
 
 
-def work(args):
-    patch, prop = args
+def work(patch):
+    """findings of every property on the tree with `patch` overlaid (None: the tree as it is); one program load per patch"""
     warnings.simplefilter("ignore")
     from wv import selftest, patchlib
     from wv.model import Program
@@ -26,27 +26,27 @@ def work(args):
     if patch:
         ov = patchlib.overlay_for(SRC, open(patch).read())
         if ov is None:
-            return patch, prop, None
+            return patch, None
     try:
         prog = Program(SRC, overlay=ov)
     except Exception as e:
-        return patch, prop, {("ANALYSIS-ERROR", "model: " + str(e)[:200])}
-    return patch, prop, selftest.findings_of(prog, prop)
+        return patch, dict((p, {("ANALYSIS-ERROR", "model: " + str(e)[:200])}) for p in PROPS)
+    return patch, dict((p, selftest.findings_of(prog, p)) for p in PROPS)
 
 
 def main():
     patches = sys.argv[1:]
-    jobs = [(None, p) for p in PROPS] + [(pt, p) for pt in patches for p in PROPS]
-    with ProcessPoolExecutor(max_workers=16) as ex:
-        res = list(ex.map(work, jobs))
-    base = {p: f for (pt, p, f) in res if pt is None}
+    with ProcessPoolExecutor(max_workers=int(os.environ.get("WV_JOBS", "12"))) as ex:
+        res = dict(ex.map(work, [None] + patches, chunksize=1))
+    base = res[None]
     for pt in patches:
-        rows = [(p, f) for (x, p, f) in res if x == pt]
-        if any(f is None for _, f in rows):
+        f = res[pt]
+        if f is None:
             print("%s: PATCH DOES NOT APPLY" % pt)
             continue
-        new = [(p, x) for p, f in rows for x in sorted(f - base[p])]
-        lost = [(p, x) for p, f in rows for x in sorted(base[p] - f)]
+        rows = [(p, f[p]) for p in PROPS]
+        new = [(p, x) for p, fs in rows for x in sorted(fs - base[p])]
+        lost = [(p, x) for p, fs in rows for x in sorted(base[p] - fs)]
         print("%s: %d new, %d lost" % (pt, len(new), len(lost)))
         seen = set()
         for p, x in new:
